@@ -591,9 +591,23 @@ pub fn expected_len(prog: &NetProgram, m: usize, site: usize, ai: usize) -> Opti
 // ---------------------------------------------------------------- C12
 
 pub fn check_c12(prog: &NetProgram, res: &NetResult, info: &mut RunInfo) {
+    match res.rerun_from {
+        // an application that was run a second time: each of the two simulations has to show the complete life cycle
+        Some(k) if k <= res.trace.len() && res.escaped_panic.is_none() => {
+            info.probe("application_run_a_second_time");
+            check_c12_life(prog, res, &res.trace[..k], true, "", info);
+            if info.violations.is_empty() {
+                check_c12_life(prog, res, &res.trace[k..], res.ok.is_some(), " [second simulation of the same application]", info);
+            }
+        }
+        _ => check_c12_life(prog, res, &res.trace, res.ok.is_some(), if res.rerun_from.is_some() { " [second simulation of the same application]" } else { "" }, info),
+    }
+}
+
+fn check_c12_life(prog: &NetProgram, res: &NetResult, trace: &[Rec], ok: bool, which: &str, info: &mut RunInfo) {
     let prog = &normalise(prog);
     if let Some(e) = &res.escaped_panic {
-        info.violate(Violation::new("C12", "panic", format!("building or running the model panicked: {e}")));
+        info.violate(Violation::new("C12", "panic", format!("building or running the model panicked{which}: {e}")));
         return;
     }
     if let Some(m) = res.build.node_failed {
@@ -611,9 +625,9 @@ pub fn check_c12(prog: &NetProgram, res: &NetResult, info: &mut RunInfo) {
     if prog.inner_end_err {
         info.probe("inner_application_fails_at_the_end");
     }
-    if res.ok.is_none() {
+    if !ok {
         if res.started && !end_faults {
-            info.violate(Violation::new("C12", "run-error", format!("fault-free run returned errors {:?}", res.errors)));
+            info.violate(Violation::new("C12", "run-error", format!("fault-free run returned errors {:?}{which}", res.errors)));
         }
         if !res.started || !end_faults {
             return;
@@ -649,39 +663,39 @@ pub fn check_c12(prog: &NetProgram, res: &NetResult, info: &mut RunInfo) {
             }
         }
     }
-    let all_starts: Vec<(usize, u8, u16)> = res.trace.iter().filter_map(|r| if let Ev::Start { stage, inc } = r.ev { Some((r.m as usize, stage, inc)) } else { None }).collect();
+    let all_starts: Vec<(usize, u8, u16)> = trace.iter().filter_map(|r| if let Ev::Start { stage, inc } = r.ev { Some((r.m as usize, stage, inc)) } else { None }).collect();
     // the start-up of the simulation comes first and is complete before anything else happens; what follows it are the
     // start-up stages of restarts (a module may ask for a shutdown-and-restart from its start-up callback)
     let got: Vec<(usize, u8)> = all_starts.iter().take(expect.len()).map(|(m, s, _)| (*m, *s)).collect();
     if let Some((m, s, _)) = all_starts.iter().skip(expect.len()).find(|(_, _, inc)| *inc == 0) {
         info.violate(Violation::new("C12", "start-count", format!(
-            "at_sim_start(stage {s}) of {} was called again after the start-up of the simulation was complete ({} calls expected)", module_path(prog, *m), expect.len())));
+            "at_sim_start(stage {s}) of {} was called again after the start-up of the simulation was complete ({} calls expected){which}", module_path(prog, *m), expect.len())));
         return;
     }
     if got != expect {
         let pos = got.iter().zip(expect.iter()).position(|(a, b)| a != b).unwrap_or(got.len().min(expect.len()));
         let name = |x: Option<&(usize, u8)>| x.map(|(m, s)| format!("{}@stage{}", module_path(prog, *m), s));
         info.violate(Violation::new("C12", "start-order", format!(
-            "at_sim_start call #{pos} was {:?}, expected {:?} ({} calls, {} expected)", name(got.get(pos)), name(expect.get(pos)), got.len(), expect.len())));
+            "at_sim_start call #{pos} was {:?}, expected {:?} ({} calls, {} expected){which}", name(got.get(pos)), name(expect.get(pos)), got.len(), expect.len())));
         return;
     }
     // at_sim_end exactly once per module, after the last event
-    let last_event_seq = res.trace.iter().filter(|r| matches!(r.ev, Ev::Beat { .. } | Ev::Recv { .. } | Ev::Start { .. })).map(|r| r.seq).max().unwrap_or(0);
+    let last_event_seq = trace.iter().filter(|r| matches!(r.ev, Ev::Beat { .. } | Ev::Recv { .. } | Ev::Start { .. })).map(|r| r.seq).max().unwrap_or(0);
     let mut ends = vec![0u32; prog.modules.len()];
-    for r in &res.trace {
+    for r in trace {
         if let Ev::End { .. } = r.ev {
             ends[r.m as usize] += 1;
             if r.seq < last_event_seq {
-                info.violate(Violation::new("C12", "end-before-last-event", format!("at_sim_end of {} ran before the last event", module_path(prog, r.m as usize))));
+                info.violate(Violation::new("C12", "end-before-last-event", format!("at_sim_end of {} ran before the last event{which}", module_path(prog, r.m as usize))));
                 return;
             }
         }
     }
     if let Some(m) = first_index(&ends, |c| *c != 1) {
-        info.violate(Violation::new("C12", "end-count", format!("at_sim_end of {} was called {} times", module_path(prog, m), ends[m])));
+        info.violate(Violation::new("C12", "end-count", format!("at_sim_end of {} was called {} times{which}", module_path(prog, m), ends[m])));
         return;
     }
-    for r in &res.trace {
+    for r in trace {
         if let Ev::Query { parent_ok, children_ok, path_ok, name_ok, inactive, roundtrip_ok } = r.ev {
             if !roundtrip_ok {
                 info.violate(Violation::new("C12", "tree-lookup-roundtrip", format!(
@@ -692,7 +706,7 @@ pub fn check_c12(prog: &NetProgram, res: &NetResult, info: &mut RunInfo) {
             // a relative may only be reported as inactive if it was shut down or has panicked
             if inactive != 0 {
                 let m = r.m as usize;
-                let went_down = |x: usize| res.trace.iter().any(|q| q.m as usize == x && q.seq < r.seq && matches!(q.ev, Ev::ShutdownReq { .. } | Ev::PanicNow));
+                let went_down = |x: usize| trace.iter().any(|q| q.m as usize == x && q.seq < r.seq && matches!(q.ev, Ev::ShutdownReq { .. } | Ev::PanicNow));
                 let mut rel: Vec<usize> = Vec::new();
                 if inactive & 1 != 0 && prog.modules[m].parent >= 0 {
                     rel.push(prog.modules[m].parent as usize);
